@@ -5,6 +5,8 @@ import OsyrisModel
 import OsyrisProofs.Lemmas.Bmap
 import OsyrisProofs.C02
 import OsyrisProofs.C06
+import Mathlib.Tactic.Ring
+import Mathlib.Tactic.Linarith
 
 set_option linter.unusedSimpArgs false
 
@@ -397,5 +399,59 @@ theorem C09_cross_phys (T : Tables) (a1 a2 a3 b1 b2 b3 : ArrV) (x : VecV) (s : L
     rw [w1 i hi, w2 i hi, w3 i hi, v1 i hi, v2 i hi, v3 i hi, v4 i hi, v5 i hi, v6 i hi]
     simp [cross3]
 
+
+/-- the fold of `normSq`: position `i` accumulates the squares of the components' entries -/
+theorem normSq_fold_get (cs : List ArrV) (i : Nat) : ∀ (acc : List Rat), i < acc.length →
+    (∀ c ∈ cs, i < c.data.length) →
+    getR (cs.foldl (fun acc c => List.zipWith (· + ·) acc (c.data.map fun t => t * t)) acc) i =
+      getR acc i + (cs.map fun c => getR c.data i * getR c.data i).sum := by
+  induction cs with
+  | nil => intro acc _ _; simp
+  | cons c cs ih =>
+    intro acc hacc hlen
+    have hc : i < c.data.length := hlen c (by simp)
+    simp only [List.foldl_cons, List.map_cons, List.sum_cons]
+    rw [ih _ (by simp [hacc, hc]) (fun c' hc' => hlen c' (by simp [hc']))]
+    have : getR (List.zipWith (· + ·) acc (c.data.map fun t => t * t)) i = getR acc i + getR c.data i * getR c.data i := by
+      unfold getR
+      simp [List.getD_eq_getElem?_getD, List.getElem?_zipWith, hacc, hc]
+    rw [this]; ring
+
+theorem normSq_get (v : VecV) (x : ArrV) (rest : List ArrV) (hv : v.comps = x :: rest) (i : Nat)
+    (hlen : ∀ c ∈ v.comps, i < c.data.length) :
+    getR v.normSq i = (v.comps.map fun c => getR c.data i * getR c.data i).sum := by
+  unfold VecV.normSq
+  rw [hv] at hlen ⊢
+  simp only [List.map_cons, List.sum_cons]
+  have hx : i < x.data.length := hlen x (by simp)
+  rw [normSq_fold_get rest i _ (by simp [hx]) (fun c hc => hlen c (by simp [hc]))]
+  congr 1
+  unfold getR
+  simp [List.getD_eq_getElem?_getD, hx]
+
+theorem phys_get (a : ArrV) (i : Nat) : getR a.phys i = getR a.data i * a.unit.factor := by
+  unfold ArrV.phys getR
+  simp only [List.getD_eq_getElem?_getD, List.getElem?_map]
+  cases a.data[i]? <;> simp
+
+
+/-- **C09 (norm)**: for a Vector with at least one component whose components share one unit (factor `f`), the squared norm
+    the model computes, expressed in physical terms, is the sum of the squared physical components — `norm` is the Euclidean
+    norm of the physical vector, in the Vector's unit (the implementation returns its square root; a 1-component Vector is the
+    recorded finding) -/
+theorem C09_norm_phys (v : VecV) (x : ArrV) (rest : List ArrV) (hv : v.comps = x :: rest) (f : Rat)
+    (hunits : ∀ c ∈ v.comps, c.unit.factor = f) (i : Nat) (hlen : ∀ c ∈ v.comps, i < c.data.length) :
+    getR v.normSq i * (f * f) = (v.comps.map fun c => getR c.phys i * getR c.phys i).sum := by
+  rw [normSq_get v x rest hv i hlen]
+  have : ∀ cs : List ArrV, (∀ c ∈ cs, c.unit.factor = f) →
+      (cs.map fun c => getR c.phys i * getR c.phys i).sum = (cs.map fun c => getR c.data i * getR c.data i).sum * (f * f) := by
+    intro cs
+    induction cs with
+    | nil => intro _; simp
+    | cons c cs ih =>
+      intro h
+      simp only [List.map_cons, List.sum_cons]
+      rw [ih (fun c' hc' => h c' (by simp [hc'])), phys_get, h c (by simp)]; ring
+  exact (this v.comps hunits).symm
 
 end Osyris.C09
